@@ -2,6 +2,7 @@ package checks
 
 import (
 	"fmt"
+	"os"
 	"strings"
 	"time"
 
@@ -371,6 +372,84 @@ func c01CLI(c *mc.Ctx) {
 	}
 }
 
+// c01BranchFile: committing from the file configured for the branch (`wrgl commit BRANCH MSG`). The
+// command caches the last ingest of that file under BRANCH-tmp and decides by the file's
+// modification time whether to ingest again; the modification time is an environment answer, so
+// the harness sets it: in the same second as the cached ingest but later, or seconds later.
+func c01BranchFile(c *mc.Ctx) {
+	sameSecond := c.Choose(2) == 0
+	variant := c.Choose(3) // how the third version differs from the second
+	noCache := c.ChooseDev(2) == 1
+	c.Shard()
+	desc := fmt.Sprintf("branch.file recommit: third version %d, file rewritten in the same second as the cached ingest=%v, --no-cache=%v", variant, sameSecond, noCache)
+	c.Logf("%s", desc)
+	repo, err := newCLIRepo()
+	if err != nil {
+		panic("mc: cannot create CLI repository: " + err.Error())
+	}
+	defer repo.remove()
+	cols := []string{"a", "b"}
+	v1 := [][]string{{"1", "q"}, {"2", "r"}}
+	v2 := [][]string{{"1", "q"}, {"2", "r"}, {"3", "s"}}
+	v3 := [][][]string{{{"1", "q"}, {"2", "CHANGED"}, {"3", "s"}}, {{"1", "q"}}, {{"4", "t"}, {"1", "q"}, {"2", "r"}, {"3", "s"}}}[variant]
+	fp, _ := repo.writeFile("data.csv", csvBytes(cols, v1, ','))
+	if _, err := repo.run(nil, "commit", "main", fp, "first", "-p", "a", "-n", "1", "--set-file", "--set-primary-key"); err != nil {
+		c.Fail("cli-error", "first commit failed: %v; %s", err, desc)
+		return
+	}
+	repo.writeFile("data.csv", csvBytes(cols, v2, ','))
+	os.Chtimes(fp, time.Now().Add(10*time.Second), time.Now().Add(10*time.Second))
+	if _, err := repo.run(nil, "commit", "main", "second", "-n", "1"); err != nil {
+		c.Fail("cli-error", "second commit (from branch.file) failed: %v; %s", err, desc)
+		return
+	}
+	// the cached ingest and its time (second resolution)
+	db, rs, closeFn, err := repo.open()
+	if err != nil {
+		panic(err)
+	}
+	var cached time.Time
+	if sum, err := ref.GetHead(rs, "main-tmp"); err == nil {
+		if com, err := objects.GetCommit(db, sum); err == nil {
+			cached = com.Time
+		}
+	}
+	closeFn()
+	if cached.IsZero() {
+		cached = time.Now().Truncate(time.Second)
+	}
+	repo.writeFile("data.csv", csvBytes(cols, v3, ','))
+	mt := cached.Add(5 * time.Second)
+	if sameSecond {
+		mt = cached.Truncate(time.Second).Add(500 * time.Millisecond)
+	}
+	os.Chtimes(fp, mt, mt)
+	args := []string{"commit", "main", "third", "-n", "1"}
+	if noCache {
+		args = append(args, "--no-cache")
+	}
+	if _, err := repo.run(nil, args...); err != nil {
+		c.Fail("cli-error", "third commit (from branch.file) failed: %v; %s", err, desc)
+		return
+	}
+	out, err := repo.run(nil, "export", "main")
+	if err != nil {
+		c.Fail("cli-error", "wrgl export failed: %v; %s", err, desc)
+		return
+	}
+	_, erows, err := parseCSV([]byte(out), ',')
+	if err != nil {
+		c.Fail("cli-export", "export output does not parse as CSV: %v; %s", err, desc)
+		return
+	}
+	if msg := model.CheckSortedUnique(v3, []int{0}, nil, erows, []int{0}); msg != "" {
+		c.Fail("cli-stale-file", "after committing the rewritten branch file the branch holds %s, the file has %s: %s; %s", shortRows(erows), shortRows(v3), msg, desc)
+		return
+	}
+	c.Outcome(fmt.Sprintf("recommitted-sameSecond=%v", sameSecond))
+	c.Nontrivial(desc)
+}
+
 func init() {
 	register(&mc.Check{
 		ID:    "C01",
@@ -378,7 +457,7 @@ func init() {
 		Rule: "small: every table of 1..3 columns (cells {'',a,b}), every ordered key subset incl. none, every sequence of 0..4/3/2 rows (one more in thorough), crossed with up to d deviations from (no spill, 1 worker, ',') over run size {none, every row, ~2 rows} x workers 1..3 x delimiter {, | tab ;}; " +
 			"hostile: one cell from {quote, embedded quote, newline, CRLF, delimiter characters, leading space, non-UTF8} at every position of 2x2 and 3x3 tables under every key; long: a cell of 65534/65535/65536/65537/70000/131072 bytes at every column, and rows crossing 64 KiB; " +
 			"boundary: 254..766 unique keys (real block size) with an optional duplicate of the key at sorted position {0,253,254,255,256,last} placed first/last/middle of the file, ascending/descending file order, empty smallest key, 4 run sizes, 1..3 workers. " +
-			"cli: `wrgl commit` (with -p, --mem-limit, -n, --delimiter) then `wrgl export` through the real command tree on an on-disk repository for small, hostile and long-cell tables. " +
+			"cli: `wrgl commit` (with -p, --mem-limit, -n, --delimiter) then `wrgl export` through the real command tree on an on-disk repository for small, hostile and long-cell tables; and `wrgl commit BRANCH MSG` from the branch's configured file, rewritten twice, the last time with a modification time set by the harness to the same second as the cached ingest (but later) or seconds later, with and without --no-cache. " +
 			"Each case runs the real ingest.IngestTable into an in-memory store and the stored table is read back block by block and compared with the CSV as encoding/csv parses it (one row per key, each some input row, ascending), plus the structural oracle of C03. " +
 			"non-trivial = ingest succeeded on >= 2 rows (or a long/hostile case); distinct by full case description",
 		Assumptions: []string{
@@ -390,6 +469,7 @@ func init() {
 			{Name: "small", Body: c01Small, DevBound: map[string]int{"quick": 2, "thorough": 3}, Budget: map[string]time.Duration{"quick": 50 * time.Second, "thorough": 12 * time.Minute}},
 			{Name: "hostile", Body: c01Hostile, DevBound: map[string]int{"quick": 1, "thorough": 3}, Budget: map[string]time.Duration{"quick": 30 * time.Second, "thorough": 5 * time.Minute}},
 			{Name: "long-cells", Body: c01Long, MemKB: 8 << 20, Budget: map[string]time.Duration{"quick": 40 * time.Second, "thorough": 5 * time.Minute}},
+			{Name: "cli-branch-file", Body: c01BranchFile, DevBound: map[string]int{"quick": 1, "thorough": 1}, Budget: map[string]time.Duration{"quick": 40 * time.Second, "thorough": 2 * time.Minute}},
 			{Name: "cli-commit-export", Body: c01CLI, DevBound: map[string]int{"quick": 1, "thorough": 3}, Budget: map[string]time.Duration{"quick": 50 * time.Second, "thorough": 8 * time.Minute}},
 			{Name: "boundary", Body: c01Boundary, DevBound: map[string]int{"quick": 1, "thorough": 1}, Budget: map[string]time.Duration{"quick": 50 * time.Second, "thorough": 10 * time.Minute}},
 		},
